@@ -20,3 +20,10 @@ Definition reader_text (s : scalar) : string :=
 Definition all_scalars := [SU8; SU32; SU64; SU16; SUnknown; SBool; SI8; SF64; SF32; SI32; SI64; SValue; SObject; SStr; SVoid; SI16].
 Lemma tie_sig_letters : f_sig_letters = map (fun s => (scalar_letter s, reader_text s)) all_scalars.
 Proof. reflexivity. Qed.
+
+(* the source files the models used by this property transliterate have not been rewritten since the models
+   were read against them (per-function digests, see WireSrcPins.v) *)
+From QV Require Import WireSrcPins.
+Lemma tie_src_reader_go : f_src_reader_go = pin_src_reader_go. Proof. reflexivity. Qed.
+Lemma tie_src_encoding_go : f_src_encoding_go = pin_src_encoding_go. Proof. reflexivity. Qed.
+Lemma tie_src_basic_go : f_src_basic_go = pin_src_basic_go. Proof. reflexivity. Qed.
